@@ -95,16 +95,12 @@ func c06Run(c C06Case, limit int64) (*h.Obs, int, string) {
 		nCmd = 4
 	}
 	// every conversation ends with a second transaction whose message is exactly as large as the limit
-	// allows (via the other transfer command): the budget of a transaction must not survive it
+	// allows (chunked): the budget of a transaction must not survive it
 	if c.Kind != "size" && c.N >= 2 && c.N <= 100 {
 		in.WriteString("RSET\r\nMAIL FROM:<ok@a2.example>\r\nRCPT TO:<ok@b2.example>\r\n")
-		if c.Kind == "data" {
-			fmt.Fprintf(&in, "BDAT %d LAST\r\n%s", c.N, strings.Repeat("s", int(c.N)))
-		} else {
-			_, w2 := dataMessage(int(c.N), false)
-			in.WriteString("DATA\r\n")
-			in.Write(w2)
-		}
+		// chunked whatever came before (BDAT keeps a per-transaction octet count on the connection), in two chunks
+		fmt.Fprintf(&in, "BDAT 1\r\ns")
+		fmt.Fprintf(&in, "BDAT %d LAST\r\n%s", c.N-1, strings.Repeat("s", int(c.N)-1))
 		in.WriteString("NOOP\r\n")
 	}
 	var segs [][]byte
@@ -165,19 +161,14 @@ func evalC06(c C06Case) *h.Finding {
 	codes := o.Codes()
 	// the second transaction (see c06Run): RSET MAIL RCPT [DATA 354] final NOOP, all positive
 	if c.Kind != "size" && c.N >= 2 && c.N <= 100 {
-		nTail := 5
-		if c.Kind == "bdat" {
-			nTail = 6
-		}
+		nTail := 6 // RSET MAIL RCPT BDAT BDAT-LAST NOOP
 		if len(o.Replies) < nTail {
 			return h.F("c06-second-transaction", "%s: replies %s", desc, codes)
 		}
 		tail := o.Replies[len(o.Replies)-nTail:]
 		for i, r := range tail {
 			ok := r.Code == 250
-			if c.Kind == "bdat" && i == 3 {
-				ok = r.Code == 354
-			}
+			_ = i
 			if !ok {
 				return h.F("c06-second-transaction", "%s: after the refused message a second transaction with a message of exactly N octets was not accepted: replies %s", desc, codes)
 			}
